@@ -13,7 +13,7 @@ var verifDir = "/verif"
 
 func main() {
 	if len(os.Args) < 2 {
-		fmt.Println("usage: govc <check|debug> ...")
+		fmt.Println("usage: govc <check|debug|replay-unit> ...")
 		os.Exit(2)
 	}
 	os.Setenv("PATH", "/opt/veriftools/go1.26.8/bin:"+os.Getenv("PATH"))
@@ -44,6 +44,10 @@ func main() {
 			code = cmdDebug(os.Args[2:])
 		case "check":
 			code = cmdCheck(os.Args[2:])
+		case "replay-unit":
+			code = cmdReplayUnit(os.Args[2:])
+		case "witness":
+			code = cmdWitness(os.Args[2:])
 		default:
 			fmt.Println("unknown command")
 			code = 2
@@ -115,6 +119,7 @@ func cmdDebug(args []string) int {
 		}
 		r.Obls = append(r.Obls, escapeTable(repoDir+"/peg.peg")...)
 		r.Obls = append(r.Obls, stackDiscipline(u)...)
+		r.Obls = append(r.Obls, denotation(u)...)
 	} else {
 		u, keys, err := loadNamedUnit(args[0])
 		if err != nil {
@@ -168,6 +173,8 @@ func loadNamedUnit(name string) (*Unit, []string, error) {
 		return loadSetUnit()
 	case "runtime":
 		return loadRuntimeUnit()
+	case "runtime-noast":
+		return loadRuntimeNoastUnit()
 	case "main":
 		return loadMainUnit()
 	case "tree":
@@ -196,6 +203,31 @@ func loadSetUnit() (*Unit, []string, error) {
 }
 
 // loadRuntimeUnit: the parser runtime (template text) instantiated on the carrier grammar.
+// loadRuntimeNoastUnit: the carrier grammar generated with -noast; the template functions that exist in a -noast
+// parser (add, matchDot, reset, parse, translatePositions, Error) against tree/contracts_tmpl_noast_verif.go.
+func loadRuntimeNoastUnit() (*Unit, []string, error) {
+	gp, err := Generate("runtime-noast", verifDir+"/carriers/carrier.peg", []string{"-noast"})
+	if err != nil {
+		return nil, nil, err
+	}
+	u := gp.Unit
+	u.NoSplit = map[string]bool{"inputOK": true}
+	u.SkipSMT = false
+	u.OpaquePreds = map[string]bool{}
+	u.TrustedExt["slices.Sort"] = &ExtSpec{Key: "slices.Sort", Params: []string{"x"}, Contract: mkContract("slices.Sort",
+		"requires soff(x) == 0",
+		"ensures forall(i, j, imp(0 <= i && i <= j && j < len(x), x[i] <= x[j]))",
+		"ensures forall(i, imp(0 <= i && i < len(x), 0 <= sortPerm(sbase(x), i) && sortPerm(sbase(x), i) < len(x) && x[sortPerm(sbase(x), i)] == old(x[i])))",
+		"ensures forall(i, imp(0 <= i && i < len(x), 0 <= sortInv(sbase(x), i) && sortInv(sbase(x), i) < len(x) && x[i] == old(x[sortInv(sbase(x), i)])))",
+		"modifies Elems.Int at b where b == sbase(x)")}
+	u.TrustedExt["fmt.Sprintf"] = &ExtSpec{Key: "fmt.Sprintf", Params: []string{"format"}}
+	u.TrustedExt["strconv.Quote"] = &ExtSpec{Key: "strconv.Quote", Params: []string{"s"}, Contract: mkContract("strconv.Quote",
+		"ensures result == quoteOf(s)")}
+	return u, runtimeNoastFuncs, nil
+}
+
+var runtimeNoastFuncs = []string{"Init.add", "Init.matchDot", "Init.reset", "Init.parse", "translatePositions", "parseError.Error"}
+
 func loadRuntimeUnit() (*Unit, []string, error) {
 	gp, err := Generate("runtime", verifDir+"/carriers/carrier.peg", nil)
 	if err != nil {
